@@ -5,5 +5,5 @@ pub mod log;
 pub mod hash;
 pub mod sim;
 pub mod harness;
-pub use sim::{clock, sync, thread, time, in_sim, set_sim};
+pub use sim::{clock, hybrid_clock, sync, thread, time, in_sim, set_sim};
 pub use libc;
